@@ -99,7 +99,8 @@ pub fn oracle(case: &SpCase, res: &SpResult) -> (Option<(String, String)>, Vec<&
             Ev::Tx(r, p) => {
                 if r.idx < res.steps_from_idx || p.conn_id != res.id_to_peer { continue; }
                 if let Some(q) = quiet_since {
-                    let app_between = app_times.iter().any(|t| *t > q && *t <= r.t_us);
+                    // (an application call at the very instant quiescence was reached may not have been processed by then)
+                    let app_between = app_times.iter().any(|t| *t >= q && *t <= r.t_us);
                     if r.t_us >= q + 1_000_000 && !app_between && !fin_seen && !own_fin {
                         labels.insert("idle_silence_checked");
                         return (Some(("not-silent-when-idle".into(), format!("log #{}: {} emitted at t={} us although the connection had been quiescent since t={} us (everything acknowledged both ways, nothing buffered, no application call in between)", r.idx, p.short(), r.t_us, q))), vec![], false, 0);
